@@ -43,7 +43,7 @@ CONFIG = {
     "coq_dirs": ["theories/Upload"],
     "coq_targets": ["theories/Upload/Properties.vo", "theories/Upload/Corr.vo", "theories/Upload/Order.vo"],
     "properties_files": ["theories/Upload/Properties.v"],
-    "required_theorems": [],
+    "required_theorems": ["ack_stored_or_reported", "ac_only_complete", "failure_pruned", "buffers_consumed_once", "trace_ok"],
     "static_obligations": [order_obligations],
     "harnesses": [
         {"cmd": "upload", "cases_quick": 400, "cases_thorough": 16000, "shards_quick": 8, "shards_thorough": 32, "race": True},
